@@ -1,0 +1,89 @@
+//! Verification hook (cargo feature `zvt_verif`).
+//!
+//! Replaces the TCP socket used by [crate::stream] with an in-memory duplex
+//! pipe handed out by a connector which a test harness registers. Nothing in
+//! here is compiled unless the feature is enabled.
+use std::net::SocketAddrV4;
+use std::pin::Pin;
+use std::sync::Mutex;
+use std::task::{Context, Poll};
+use tokio::io::{AsyncRead, AsyncWrite, DuplexStream, ReadBuf};
+
+/// What the registered connector answers to a connection attempt.
+pub enum ConnectOutcome {
+    /// The connection is established; the peer holds the other end.
+    Accept(DuplexStream),
+    /// The connection is refused.
+    Refuse,
+    /// The connection attempt never completes.
+    Stall,
+}
+
+type Connector = Box<dyn FnMut(SocketAddrV4) -> ConnectOutcome + Send>;
+
+static CONNECTOR: Mutex<Option<Connector>> = Mutex::new(None);
+
+/// Registers the connector used by all subsequent [VerifStream::connect] calls.
+pub fn set_connector(connector: Connector) {
+    *CONNECTOR.lock().unwrap() = Some(connector);
+}
+
+/// Removes the registered connector.
+pub fn clear_connector() {
+    *CONNECTOR.lock().unwrap() = None;
+}
+
+/// In-memory stand-in for [tokio::net::TcpStream].
+pub struct VerifStream(DuplexStream);
+
+impl VerifStream {
+    /// Same shape as [tokio::net::TcpStream::connect].
+    pub async fn connect(addr: SocketAddrV4) -> std::io::Result<Self> {
+        let outcome = {
+            let mut guard = CONNECTOR.lock().unwrap();
+            match guard.as_mut() {
+                Some(connector) => connector(addr),
+                None => ConnectOutcome::Refuse,
+            }
+        };
+        match outcome {
+            ConnectOutcome::Accept(stream) => Ok(Self(stream)),
+            ConnectOutcome::Refuse => Err(std::io::Error::new(
+                std::io::ErrorKind::ConnectionRefused,
+                "verif: connection refused",
+            )),
+            ConnectOutcome::Stall => std::future::pending().await,
+        }
+    }
+}
+
+impl AsyncRead for VerifStream {
+    fn poll_read(
+        mut self: Pin<&mut Self>,
+        cx: &mut Context<'_>,
+        buf: &mut ReadBuf<'_>,
+    ) -> Poll<std::io::Result<()>> {
+        Pin::new(&mut self.0).poll_read(cx, buf)
+    }
+}
+
+impl AsyncWrite for VerifStream {
+    fn poll_write(
+        mut self: Pin<&mut Self>,
+        cx: &mut Context<'_>,
+        buf: &[u8],
+    ) -> Poll<std::io::Result<usize>> {
+        Pin::new(&mut self.0).poll_write(cx, buf)
+    }
+
+    fn poll_flush(mut self: Pin<&mut Self>, cx: &mut Context<'_>) -> Poll<std::io::Result<()>> {
+        Pin::new(&mut self.0).poll_flush(cx)
+    }
+
+    fn poll_shutdown(
+        mut self: Pin<&mut Self>,
+        cx: &mut Context<'_>,
+    ) -> Poll<std::io::Result<()>> {
+        Pin::new(&mut self.0).poll_shutdown(cx)
+    }
+}
